@@ -652,6 +652,10 @@ var classifiers = []vrt.Classifier{
 	{ID: "C13-K6", Match: func(d vrt.Disc, c *vrt.Ctx) bool {
 		return d.Kind == "gen-error-differs" && strings.Contains(d.Detail, "simple err=<nil> gen err=can not ")
 	}},
+	// C13-K7: through a descent followed by a filter the mutation operations change locations
+	// that Get does not select (Del $..[?(@.x.b == @[-2].*)].* also nulls scalar members that the
+	// filter matched but whose wildcard selects nothing).
+	{ID: "C13-K7", Match: func(d vrt.Disc, c *vrt.Ctx) bool { return has(d, "has:descent") && has(d, "has:filter") }},
 	// C13-K3: a *One form can return without changing anything although the path selects a
 	// location (it stops at the first candidate it visits, e.g. the first union member or the
 	// first node of a descent, even when that one does not match).
